@@ -310,7 +310,7 @@ def run_lines(cmd, lines, timeout, env=None, restartable=True):
         pos += len(got)
         outs.append("crash " + re.sub(r"\s+", "_", stderr_tail.strip())[-200:])
         pos += 1
-        if not restartable or guard > 50:
+        if not restartable or guard > 6:
             outs.extend(["crash not-run"] * (len(lines) - pos))
             break
         # skip to next case boundary if the script is case-structured
@@ -453,7 +453,7 @@ class Check:
     # ---- correspondence
     def go_run(self, engine, lines, timeout=None):
         env = dict(os.environ, GOMEMLIMIT="6GiB", TMPDIR=self.tmp)
-        return run_lines([self.harness, engine, "run"], lines, timeout or self.p.get("timeout", 900), env=env)
+        return run_lines([self.harness, engine, "run"], lines, timeout or self.p.get("timeout", 420), env=env)
 
     def lean_run(self, engine, lines, mode=None):
         cmd = [self.drivers[engine]] + ([mode] if mode else [])
